@@ -104,12 +104,95 @@ theorem readonly_pure (env : Env) (fs : FS) (cache : Path) (key : Bytes) (sri : 
     exact AllCalls.after_eq env (hp.mono (fun c hc => exec_readOnly env c hc) (fun _ h => h)) fs
   exact ⟨lift _ h.1, lift _ h.2.1, lift _ h.2.2.1, lift _ h.2.2.2.2.2.2.2, lift _ h.2.2.2.2.2.2.1⟩
 
-/-- **Keys are opaque**: a key influences the paths an operation touches only through the hex
-SHA-1 of its bytes (two keys with the same digest address the same bucket, and nothing else about
-the key — separators, `..`, NUL, case — reaches a path). -/
+/-- **Keys are opaque** (the path function): two keys with the same SHA-1 have the same bucket
+path.  That the bucket path (and its parent directory) is the ONLY way a key reaches a path of any
+call of the index operations is the program-level statement `index_ops_paths` below. -/
 theorem key_opaque (cache : Path) (k1 k2 : Bytes) (h : cfg.H .sha1 k1 = cfg.H .sha1 k2) :
     bucketPath cfg cache k1 = bucketPath cfg cache k2 := by
   unfold bucketPath keyHex; rw [h]
+
+/-! ### keys are opaque, at program level -/
+
+def _root_.Cacache.Target.path : Target → Path
+  | .abs p => p
+  | .rel p => p
+
+/-- EVERY path a call mentions — read or written, source or destination, link texts included. -/
+def _root_.Cacache.Call.allPaths : Call → List Path
+  | .mkdirP p | .mkTemp p | .fallocate p _ | .writeAt p _ _ | .truncate p _ | .openAppend p
+  | .appendWrite p _ | .readFile p | .existsF p | .sizeOf p | .unlink p | .walk p | .readDir p
+  | .removeTree p | .isLink p => [p]
+  | .rename s d | .hardLink s d | .copyFile s d | .reflink s d | .renameLink s d => [s, d]
+  | .symlink t p | .mkTempLink p t | .sameFile p t => [p, t.path]
+  | .now => []
+
+/-- Every path the call mentions is the bucket file of `key` or the directory holding it. -/
+def OnlyBucketOf (cache : Path) (key : Bytes) (c : Call) : Prop :=
+  ∀ p ∈ c.allPaths, p = bucketPath cfg cache key ∨ p = FS.parent (bucketPath cfg cache key)
+
+/-- … or the content path of some integrity value (the entry's, for a full removal). -/
+def OnlyBucketOrContentOf (cache : Path) (key : Bytes) (c : Call) : Prop :=
+  ∀ p ∈ c.allPaths, p = bucketPath cfg cache key ∨ p = FS.parent (bucketPath cfg cache key) ∨
+    ∃ sri, contentPath cache sri = some p
+
+/-- Close the per-call goals: the call's paths are literally the bucket / its parent. -/
+syntax "kp_leaf" : tactic
+macro_rules
+  | `(tactic| kp_leaf) => `(tactic| first
+      | exact trivial
+      | ((first | unfold OnlyBucketOf | unfold OnlyBucketOrContentOf)
+         intro p hp
+         simp only [Call.allPaths, List.mem_cons, List.mem_singleton, List.not_mem_nil, or_false] at hp <;>
+         first
+           | exact Or.inl hp
+           | exact Or.inr hp
+           | exact Or.inr (Or.inl hp)
+           | exact Or.inr (Or.inr ⟨_, by rw [hp]; assumption⟩)))
+
+/-- **Keys are opaque (program level).**  Whatever the calls answer — every filesystem state,
+fault plan, interleaving — every path that any call of `find` / `insert` / `delete` for `key`
+mentions (reads included) is `bucketPath cfg cache key` or its parent directory: the key reaches
+the filesystem's name space through the hex SHA-1 in `bucketPath` and through nothing else
+(separators, `..`, NUL bytes, case in the key never reach a path; the key's bytes only occur
+inside the record DATA that is appended). -/
+theorem index_ops_paths (cache : Path) (key : Bytes) (o : WriteOpts) :
+    AllCalls (OnlyBucketOf cfg cache key) (find cfg cache key) ∧
+    AllCalls (OnlyBucketOf cfg cache key) (insert cfg cache key o) ∧
+    AllCalls (OnlyBucketOf cfg cache key) (delete cfg cache key) := by
+  refine ⟨?_, ?_, ?_⟩
+  · unfold find bucketEntries
+    repeat' ac_step
+    all_goals kp_leaf
+  · unfold insert getTime appendRec
+    repeat' ac_step
+    all_goals kp_leaf
+  · unfold delete insert getTime appendRec
+    repeat' ac_step
+    all_goals kp_leaf
+
+/-- A full removal mentions, besides those two, only a content path (that of the entry found). -/
+theorem removeFully_paths (cache : Path) (key : Bytes) :
+    AllCalls (OnlyBucketOrContentOf cfg cache key) (removeFully cfg cache key) := by
+  unfold removeFully find bucketEntries removeHash
+  repeat' ac_step
+  all_goals kp_leaf
+
+/-- Hence two keys with the same SHA-1 are indistinguishable as far as paths go: every path any
+call of an index operation on `k1` mentions is the bucket of `k2` or its parent. -/
+theorem same_sha1_same_paths (cache : Path) (k1 k2 : Bytes) (o : WriteOpts)
+    (h : cfg.H .sha1 k1 = cfg.H .sha1 k2) :
+    AllCalls (OnlyBucketOf cfg cache k2) (find cfg cache k1) ∧
+    AllCalls (OnlyBucketOf cfg cache k2) (insert cfg cache k1 o) ∧
+    AllCalls (OnlyBucketOf cfg cache k2) (delete cfg cache k1) ∧
+    AllCalls (OnlyBucketOrContentOf cfg cache k2) (removeFully cfg cache k1) := by
+  have e : bucketPath cfg cache k1 = bucketPath cfg cache k2 := key_opaque cfg cache k1 k2 h
+  have e1 : OnlyBucketOf cfg cache k1 = OnlyBucketOf cfg cache k2 := by
+    unfold OnlyBucketOf; rw [e]
+  have e2 : OnlyBucketOrContentOf cfg cache k1 = OnlyBucketOrContentOf cfg cache k2 := by
+    unfold OnlyBucketOrContentOf; rw [e]
+  rw [← e1, ← e2]
+  exact ⟨(index_ops_paths cfg cache k1 o).1, (index_ops_paths cfg cache k1 o).2.1,
+    (index_ops_paths cfg cache k1 o).2.2, removeFully_paths cfg cache k1⟩
 
 /-- The calls the statement is about are soundly collected: what `AllCalls` asserts holds of the
 trace of every healthy run and of every run under any fault plan. -/
